@@ -49,8 +49,9 @@ def _mut(name, k):
 
 def _strategy(ctx):
     keys = st.lists(st.text(alphabet="abcdefXYZ019_", min_size=1, max_size=6), min_size=0, max_size=9, unique=True)
-    return st.builds(lambda db, keys, hashname: {"db": db, "keys": sorted(keys), "hash": hashname},
-                     dbgen.model_dbs(max_each=4), keys, st.sampled_from(["abcd", "0zDC", "____"]))
+    return st.builds(lambda db, keys, hashname, db2: {"db": db, "keys": sorted(keys), "hash": hashname, "db2": db2},
+                     dbgen.model_dbs(max_each=4), keys, st.sampled_from(["abcd", "0zDC", "____"]),
+                     st.one_of(st.none(), dbgen.model_dbs(max_each=3, lib="libsecond")))
 
 
 _FNS = None
@@ -172,6 +173,42 @@ def check_db(d, data, db, nt, classes):
     return None
 
 
+def check_incremental(d, data1, db2, nt, classes):
+    """history: load file 1, answer lookups (so the name tables are built), request file 2, look up its names"""
+    import copy
+    db2 = copy.deepcopy(db2)
+    for kind in ("types", "elements", "manifests"):
+        for n, r in enumerate(db2[kind]):
+            r["name"] = "second_%s_%d" % (kind[0], n)
+            r["scoped_name"] = "ns2::" + r["name"] if kind != "manifests" else r.get("scoped_name", "")
+            if kind == "types":
+                r["true_name"] = "ns2::" + r["name"]
+    p1, p2 = os.path.join(d, "f.in"), os.path.join(d, "g.in")
+    run.write(p1, data1)
+    run.write(p2, idbfmt.serialise(db2))
+    cmds = ["req " + p1]
+    for fn, kind, fld in LOOKUPS:
+        cmds.append("byname %s %s" % (fn, idb.hexs("warm_up_the_table")))
+    cmds.append("req " + p2)
+    queries = []
+    for fn, kind, fld in LOOKUPS:
+        for r in db2[kind]:
+            if r[fld]:
+                queries.append((fn, r[fld]))
+                cmds.append("byname %s %s" % (fn, idb.hexs(r[fld])))
+    cmds.append("echo done")
+    r = idb.run_script(cmds, timeout=120)
+    if r.res.abnormal or r.res.rc != 0:
+        return ("crash:" + r.res.kind(), "incremental load history died: " + r.res.err.decode("latin-1")[-300:])
+    res = [json.loads(l[2:]) for l in r.lines if l.startswith("R ")][len(LOOKUPS):]
+    for (fn, nm), got in zip(queries, res):
+        if got == 0:
+            return ("lookup-stale", "%s(%r) returns 0 although a database requested after the first lookups defines that name" % (fn, nm))
+        nt.add("%s|after-second-load" % fn)
+    classes.append("incremental_load")
+    return None
+
+
 def check_unique_names(keys, hashname, nt, classes):
     """module definitions with unique-name tables of every size 0..n"""
     for n in range(len(keys) + 1):
@@ -217,6 +254,8 @@ def judge(case, ctx):
         bad = check_db(d, data, db, nt, classes)
         if bad is None:
             bad = check_unique_names(case["keys"], case["hash"], nt, classes)
+        if bad is None and case.get("db2"):
+            bad = check_incremental(d, data, case["db2"], nt, classes)
     if bad:
         return Outcome(ok=False, key=bad[0], detail=bad[1], classes=classes)
     return Outcome(ok=True, nontrivial=sorted(nt), classes=classes,
